@@ -189,6 +189,34 @@ def eval_case(job):
             if float(oc[0]) != float(pm[0]):
                 devs.append(('foa3:ocic', 'OCic differs from PMvol'))
             return devs
+        if kind == 'Scope':
+            from AEIC.emissions.ei.pmnvol import calculate_PMnvolEI_scope11
+            from AEIC.performance.types import ThrustMode
+
+            m = ThrustMode(c['mode'])
+            other = {ThrustMode.IDLE: 5.0, ThrustMode.APPROACH: 6.0, ThrustMode.CLIMB: 7.0, ThrustMode.TAKEOFF: 8.0}
+
+            def index(sn):
+                from AEIC.performance.types import ThrustModeValues
+
+                d = dict(other)
+                d[m] = float(sn)
+                return float(calculate_PMnvolEI_scope11(ThrustModeValues(d), c['eng'], 5.0)[m])
+
+            v = index(c['sn'])
+            devs = []
+            if not (math.isfinite(v) and v >= 0):
+                return [('scope11:not-finite-nonnegative', f'smoke number {c["sn"]} in {c["mode"]} ({c["eng"]}): {v}')]
+            if o['zero']:
+                if v != 0.0:
+                    devs.append(('scope11:no-data-not-zero', f'smoke number {c["sn"]} (no data) in {c["mode"]} gives {v}; specification: 0'))
+                return devs
+            ref = index(o['same_as'])
+            if abs(v - ref) > 1e-12 * max(1.0, abs(ref)):
+                devs.append(('scope11:cap-at-40', f'smoke number {c["sn"]} in {c["mode"]} ({c["eng"]}) gives {v}; specification: the value for smoke number {o["same_as"]} = {ref}'))
+            if o['below'] > 0 and index(o['below']) > v * (1 + 1e-12):
+                devs.append(('scope11:not-monotone', f'smoke number {o["below"]} gives more than smoke number {c["sn"]} in {c["mode"]}'))
+            return devs
         if kind == 'Spec':
             from AEIC.emissions.ei.nox import NOx_speciation
             from AEIC.emissions.ei.pmvol import EI_PMvol_FuelFlow
@@ -262,14 +290,14 @@ def run(ctx: Ctx):
     ctx.rule = (
         'lattice cases per function (TLC-enumerated): ISA 0..26 km every 500 m; thrust categories for all calibration triples over {1,2,4,6} x 15 flows; '
         'sulfur 4 contents x 4 yields; HC/CO fit: calibration flows/indices as half-decade powers of ten x 11 evaluation flows (quick 24 057, thorough 180 224); '
-        'NOx regression: 6 318 calibration sets; FOA3 9 thrusts x 3 HC indices; speciation 4 modes; non-trivial = clamped / tie / non-monotone calibration / stratospheric'
+        'NOx regression: 6 318 calibration sets; FOA3 9 thrusts x 3 HC indices; SCOPE11 11 smoke numbers x 4 modes x 2 engine types; speciation 4 modes; non-trivial = clamped / tie / non-monotone calibration / stratospheric'
     )
     ctx.not_covered += [
         'numeric agreement of ISA pressure values with the published equations (only positivity, monotonicity and the pressure<->altitude round trip)',
         'Fuel Flow Method 2 theta^3.8 * exp(0.2 M^2) factor (only sea-level-static value, linearity, finiteness)',
         'BFFM2 NOx humidity / ambient correction magnitude (only regression slope through ratios at equal ambient state, linearity, speciation)',
         'HC/CO ambient correction away from sea-level ISA; HC/CO for non-positive fuel flows',
-        'SCOPE11 and MEEM magnitudes (only finite and non-negative)',
+        'SCOPE11 magnitude (decided: cap of the smoke number at 40, no-data values, monotonicity) and MEEM magnitudes (only finite and non-negative)',
     ]
     ctx.assumptions += ['sea-level ISA ambient state makes the ambient correction factors exactly 1', 'branch-condition ties of the HC/CO fit admit both outcomes']
     if ctx.replay:
@@ -279,7 +307,7 @@ def run(ctx: Ctx):
                 ctx.violation(key, desc, case)
         return
     jobs = []
-    for kind in ('Isa', 'Cat', 'Sox', 'Hc', 'Nox', 'Foa', 'Spec'):
+    for kind in ('Isa', 'Cat', 'Sox', 'Hc', 'Nox', 'Foa', 'Scope', 'Spec'):
         sub = None
         if kind == 'Hc' and not ctx.quick:
             sub = {'ExpF <- QuickF': 'ExpF <- FullF', 'ExpE <- QuickE': 'ExpE <- FullE'}
@@ -290,7 +318,7 @@ def run(ctx: Ctx):
     ctx.log(f'evaluating {len(jobs)} lattice cases on the real functions')
     for (kind, case), devs in zip(jobs, pmap(eval_case, jobs)):
         o = case['o']
-        nt = (kind == 'Hc' and (o['rule'] != 'regular' or len(o['alts']) > 1)) or (kind == 'Isa' and case['c']['h'] > 11000) or kind in ('Cat', 'Nox', 'Foa', 'Sox')
+        nt = (kind == 'Hc' and (o['rule'] != 'regular' or len(o['alts']) > 1)) or (kind == 'Isa' and case['c']['h'] > 11000) or kind in ('Cat', 'Nox', 'Foa', 'Sox', 'Scope')
         ctx.case_done((kind, case['c']), nontrivial=nt)
         if kind in ('Hc', 'Nox'):
             ctx.sample({'kind': kind, **case}, limit=4)
